@@ -472,20 +472,20 @@ package stree
 //@
 //@ func (*node).pathTo
 //@   role compare ord
-//@   requires [C03] treeRO(n, compare)
-//@   ensures [C03] ord: ordPath(result, compare)
-//@   ensures [C03] present: inK(n, rank(compare, key)) <==> (len(result) > 0 && ord(compare, key, result[len(result) - 1].X) == 0)
-//@   ensures [C03] keySide: forall j int, k int :: {result[j], k in n.keys} 0 <= j && j < len(result) && k in n.keys && !(k in result[j].keys) ==> ((k < rank(compare, key)) <==> (k < rank(compare, result[j].X)))
-//@   loop 1: invariant [C03] keySide: forall j int, k int :: {path[j], k in n.keys} 0 <= j && j < len(path) && k in n.keys && !(k in path[j].keys) ==> ((k < rank(compare, key)) <==> (k < rank(compare, path[j].X)))
-//@   loop 1: invariant [C03] keySideCur: cur != nil ==> forall k int :: {k in n.keys} k in n.keys && !(k in cur.keys) ==> ((k < rank(compare, key)) <==> (k < rank(compare, cur.X)))
-//@   loop 1: invariant [C03] ord: ordPath(path, compare) && (cur != nil ==> n != nil && cur in n.desc)
-//@   loop 1: invariant [C03] search: inK(n, rank(compare, key)) <==> inK(cur, rank(compare, key))
-//@   ensures [C03] path: nodePath(result) && (n == nil <==> len(result) == 0) && (len(result) > 0 ==> result[0] == n)
-//@   ensures [C03] found: len(result) > 0 ==> ord(compare, key, result[len(result) - 1].X) == 0 || (ord(compare, key, result[len(result) - 1].X) < 0 && result[len(result) - 1].left == nil) || (ord(compare, key, result[len(result) - 1].X) > 0 && result[len(result) - 1].right == nil)
-//@   ensures [C03] steered: forall a int, b int :: {result[a], result[b]} 0 <= a && b == a + 1 && b < len(result) ==> (ord(compare, key, result[a].X) < 0 && result[b] == result[a].left) || (ord(compare, key, result[a].X) > 0 && result[b] == result[a].right)
-//@   loop 1: invariant [C03] path: nodePath(path) && (len(path) == 0 ==> cur == n) && (len(path) > 0 ==> path[0] == n) && (len(path) == 0 ==> cap(path) == 0) && (len(path) > 0 ==> fresh(path)) && old_arrays_unchanged(path)
-//@   loop 1: invariant [C03] next: len(path) > 0 ==> (ord(compare, key, path[len(path) - 1].X) < 0 && cur == path[len(path) - 1].left) || (ord(compare, key, path[len(path) - 1].X) > 0 && cur == path[len(path) - 1].right)
-//@   loop 1: invariant [C03] steered: forall a int, b int :: {path[a], path[b]} 0 <= a && b == a + 1 && b < len(path) ==> (ord(compare, key, path[a].X) < 0 && path[b] == path[a].left) || (ord(compare, key, path[a].X) > 0 && path[b] == path[a].right)
+//@   requires [C01,C03,C04] treeRO(n, compare)
+//@   ensures [C01,C03,C04] ord: ordPath(result, compare)
+//@   ensures [C01,C03,C04] present: inK(n, rank(compare, key)) <==> (len(result) > 0 && ord(compare, key, result[len(result) - 1].X) == 0)
+//@   ensures [C01,C03,C04] keySide: forall j int, k int :: {result[j], k in n.keys} 0 <= j && j < len(result) && k in n.keys && !(k in result[j].keys) ==> ((k < rank(compare, key)) <==> (k < rank(compare, result[j].X)))
+//@   loop 1: invariant [C01,C03,C04] keySide: forall j int, k int :: {path[j], k in n.keys} 0 <= j && j < len(path) && k in n.keys && !(k in path[j].keys) ==> ((k < rank(compare, key)) <==> (k < rank(compare, path[j].X)))
+//@   loop 1: invariant [C01,C03,C04] keySideCur: cur != nil ==> forall k int :: {k in n.keys} k in n.keys && !(k in cur.keys) ==> ((k < rank(compare, key)) <==> (k < rank(compare, cur.X)))
+//@   loop 1: invariant [C01,C03,C04] ord: ordPath(path, compare) && (cur != nil ==> n != nil && cur in n.desc)
+//@   loop 1: invariant [C01,C03,C04] search: inK(n, rank(compare, key)) <==> inK(cur, rank(compare, key))
+//@   ensures [C01,C03,C04] path: nodePath(result) && (n == nil <==> len(result) == 0) && (len(result) > 0 ==> result[0] == n)
+//@   ensures [C01,C03,C04] found: len(result) > 0 ==> ord(compare, key, result[len(result) - 1].X) == 0 || (ord(compare, key, result[len(result) - 1].X) < 0 && result[len(result) - 1].left == nil) || (ord(compare, key, result[len(result) - 1].X) > 0 && result[len(result) - 1].right == nil)
+//@   ensures [C01,C03,C04] steered: forall a int, b int :: {result[a], result[b]} 0 <= a && b == a + 1 && b < len(result) ==> (ord(compare, key, result[a].X) < 0 && result[b] == result[a].left) || (ord(compare, key, result[a].X) > 0 && result[b] == result[a].right)
+//@   loop 1: invariant [C01,C03,C04] path: nodePath(path) && (len(path) == 0 ==> cur == n) && (len(path) > 0 ==> path[0] == n) && (len(path) == 0 ==> cap(path) == 0) && (len(path) > 0 ==> fresh(path)) && old_arrays_unchanged(path)
+//@   loop 1: invariant [C01,C03,C04] next: len(path) > 0 ==> (ord(compare, key, path[len(path) - 1].X) < 0 && cur == path[len(path) - 1].left) || (ord(compare, key, path[len(path) - 1].X) > 0 && cur == path[len(path) - 1].right)
+//@   loop 1: invariant [C01,C03,C04] steered: forall a int, b int :: {path[a], path[b]} 0 <= a && b == a + 1 && b < len(path) ==> (ord(compare, key, path[a].X) < 0 && path[b] == path[a].left) || (ord(compare, key, path[a].X) > 0 && path[b] == path[a].right)
 //@
 //@ func (*Tree).Cursor
 //@   ensures [C03,C04] absent: result == nil || (fresh(result) && len(result.path) > 0 && pathOK(result) && result.path[0] == t.root && ord(t.compare, cur(result).X, key) == 0)
@@ -505,22 +505,22 @@ package stree
 //@ func (*node).inorder
 //@   ghost cmp func(T, T) int
 //@   role f yield
-//@   requires [C01,C03] treeOK(n, cmp)
-//@   ensures  [C01,C03] count: ncalls(f) >= old(ncalls(f)) && ncalls(f) - old(ncalls(f)) <= cntOf(n) && (result ==> ncalls(f) - old(ncalls(f)) == cntOf(n))
-//@   ensures  [C01,C03] members: forall j int :: {callarg(f, j)} old(ncalls(f)) <= j && j < ncalls(f) ==> inK(n, rank(cmp, callarg(f, j))) && callarg(f, j) == n.rep[rank(cmp, callarg(f, j))]
-//@   ensures  [C01,C03] ascending: forall a int, b int :: {callarg(f, a), callarg(f, b)} old(ncalls(f)) <= a && a < b && b < ncalls(f) ==> rank(cmp, callarg(f, a)) < rank(cmp, callarg(f, b))
-//@   ensures  [C01,C03] went: forall j int :: {callret(f, j)} old(ncalls(f)) <= j && j < ncalls(f) - 1 ==> callret(f, j)
-//@   ensures  [C01,C03] stopped: !result ==> ncalls(f) > old(ncalls(f)) && !callret(f, ncalls(f) - 1)
-//@   ensures  [C01,C03] finished: result ==> forall j int :: {callret(f, j)} old(ncalls(f)) <= j && j < ncalls(f) ==> callret(f, j)
-//@   ensures  [C01,C03] older: forall j int :: {callarg(f, j)} {callret(f, j)} 0 <= j && j < old(ncalls(f)) ==> callarg(f, j) == old(callarg(f, j)) && callret(f, j) == old(callret(f, j))
+//@   requires [C01,C03,C04] treeOK(n, cmp)
+//@   ensures  [C01,C03,C04] count: ncalls(f) >= old(ncalls(f)) && ncalls(f) - old(ncalls(f)) <= cntOf(n) && (result ==> ncalls(f) - old(ncalls(f)) == cntOf(n))
+//@   ensures  [C01,C03,C04] members: forall j int :: {callarg(f, j)} old(ncalls(f)) <= j && j < ncalls(f) ==> inK(n, rank(cmp, callarg(f, j))) && callarg(f, j) == n.rep[rank(cmp, callarg(f, j))]
+//@   ensures  [C01,C03,C04] ascending: forall a int, b int :: {callarg(f, a), callarg(f, b)} old(ncalls(f)) <= a && a < b && b < ncalls(f) ==> rank(cmp, callarg(f, a)) < rank(cmp, callarg(f, b))
+//@   ensures  [C01,C03,C04] went: forall j int :: {callret(f, j)} old(ncalls(f)) <= j && j < ncalls(f) - 1 ==> callret(f, j)
+//@   ensures  [C01,C03,C04] stopped: !result ==> ncalls(f) > old(ncalls(f)) && !callret(f, ncalls(f) - 1)
+//@   ensures  [C01,C03,C04] finished: result ==> forall j int :: {callret(f, j)} old(ncalls(f)) <= j && j < ncalls(f) ==> callret(f, j)
+//@   ensures  [C01,C03,C04] older: forall j int :: {callarg(f, j)} {callret(f, j)} 0 <= j && j < old(ncalls(f)) ==> callarg(f, j) == old(callarg(f, j)) && callret(f, j) == old(callret(f, j))
 //@   modifies calls(f)
 //@   call inorder#1: cmp = cmp
-//@   loop 1: invariant [C01,C03] older: forall j int :: {callarg(f, j)} {callret(f, j)} 0 <= j && j < old(ncalls(f)) ==> callarg(f, j) == old(callarg(f, j)) && callret(f, j) == old(callret(f, j))
-//@   loop 1: invariant [C01,C03] shape: treeOK(old(n), cmp) && (n != nil ==> old(n) != nil && n in old(n).desc)
-//@   loop 1: invariant [C01,C03] count: ncalls(f) >= old(ncalls(f)) && ncalls(f) - old(ncalls(f)) + cntOf(n) == cntOf(old(n))
-//@   loop 1: invariant [C01,C03] members: forall j int :: {callarg(f, j)} {callret(f, j)} old(ncalls(f)) <= j && j < ncalls(f) ==> inK(old(n), rank(cmp, callarg(f, j))) && callarg(f, j) == old(n).rep[rank(cmp, callarg(f, j))] && callret(f, j)
-//@   loop 1: invariant [C01,C03] below: forall j int :: {callarg(f, j)} old(ncalls(f)) <= j && j < ncalls(f) ==> (forall k int :: {k in n.keys} inK(n, k) ==> rank(cmp, callarg(f, j)) < k)
-//@   loop 1: invariant [C01,C03] ascending: forall a int, b int :: {callarg(f, a), callarg(f, b)} old(ncalls(f)) <= a && a < b && b < ncalls(f) ==> rank(cmp, callarg(f, a)) < rank(cmp, callarg(f, b))
+//@   loop 1: invariant [C01,C03,C04] older: forall j int :: {callarg(f, j)} {callret(f, j)} 0 <= j && j < old(ncalls(f)) ==> callarg(f, j) == old(callarg(f, j)) && callret(f, j) == old(callret(f, j))
+//@   loop 1: invariant [C01,C03,C04] shape: treeOK(old(n), cmp) && (n != nil ==> old(n) != nil && n in old(n).desc)
+//@   loop 1: invariant [C01,C03,C04] count: ncalls(f) >= old(ncalls(f)) && ncalls(f) - old(ncalls(f)) + cntOf(n) == cntOf(old(n))
+//@   loop 1: invariant [C01,C03,C04] members: forall j int :: {callarg(f, j)} {callret(f, j)} old(ncalls(f)) <= j && j < ncalls(f) ==> inK(old(n), rank(cmp, callarg(f, j))) && callarg(f, j) == old(n).rep[rank(cmp, callarg(f, j))] && callret(f, j)
+//@   loop 1: invariant [C01,C03,C04] below: forall j int :: {callarg(f, j)} old(ncalls(f)) <= j && j < ncalls(f) ==> (forall k int :: {k in n.keys} inK(n, k) ==> rank(cmp, callarg(f, j)) < k)
+//@   loop 1: invariant [C01,C03,C04] ascending: forall a int, b int :: {callarg(f, a), callarg(f, b)} old(ncalls(f)) <= a && a < b && b < ncalls(f) ==> rank(cmp, callarg(f, a)) < rank(cmp, callarg(f, b))
 //@
 // inorderAfter: what is yielded are stored keys of the subtree, not smaller than key, in strictly ascending order, the
 // first of them being the least such key of the whole subtree (and when nothing is yielded and the walk was not
@@ -539,13 +539,13 @@ package stree
 //@   ensures  [C01,C04] older: forall j int :: {callarg(f, j)} {callret(f, j)} 0 <= j && j < old(ncalls(f)) ==> callarg(f, j) == old(callarg(f, j)) && callret(f, j) == old(callret(f, j))
 //@   modifies calls(f)
 //@   call inorder#1: cmp = compare
-//@   loop 1: invariant [C01,C04] idx: -1 <= i && i < len(path)
+//@   loop 1: invariant [C01,C04] idx: -1 <= i && i < len(path) && (i == len(path) - 1 ==> ncalls(f) == old(ncalls(f)))
 //@   loop 1: invariant [C01,C04] older: forall j int :: {callarg(f, j)} {callret(f, j)} 0 <= j && j < old(ncalls(f)) ==> callarg(f, j) == old(callarg(f, j)) && callret(f, j) == old(callret(f, j))
 //@   loop 1: invariant [C01,C04] count: ncalls(f) >= old(ncalls(f))
 //@   loop 1: invariant [C01,C04] went: forall j int :: {callret(f, j)} old(ncalls(f)) <= j && j < ncalls(f) ==> callret(f, j)
 //@   loop 1: invariant [C01,C04] members: forall j int :: {callarg(f, j)} old(ncalls(f)) <= j && j < ncalls(f) ==> inK(n, rank(compare, callarg(f, j))) && rank(compare, callarg(f, j)) >= rank(compare, key) && callarg(f, j) == n.rep[rank(compare, callarg(f, j))]
 //@   loop 1: invariant [C01,C04] ascending: forall a int, b int :: {callarg(f, a), callarg(f, b)} old(ncalls(f)) <= a && a < b && b < ncalls(f) ==> rank(compare, callarg(f, a)) < rank(compare, callarg(f, b))
-//@   loop 1: invariant [C01,C04] below: i + 1 < len(path) ==> forall j int :: {callarg(f, j)} old(ncalls(f)) <= j && j < ncalls(f) ==> inK(path[i + 1], rank(compare, callarg(f, j))) || rank(compare, callarg(f, j)) < rank(compare, path[i + 1].X)
+//@   loop 1: invariant [C01,C04] below: i + 1 < len(path) ==> forall j int :: {callarg(f, j)} old(ncalls(f)) <= j && j < ncalls(f) ==> rank(compare, callarg(f, j)) in path[i + 1].keys
 //@   loop 1: invariant [C01,C04] nothing: ncalls(f) == old(ncalls(f)) && i + 1 < len(path) ==> forall k int :: {k in path[i + 1].keys} k in path[i + 1].keys ==> k < rank(compare, key)
 //@   loop 1: invariant [C01,C04] first: ncalls(f) > old(ncalls(f)) ==> forall k int :: {k in n.keys} inK(n, k) && k >= rank(compare, key) ==> k >= rank(compare, callarg(f, old(ncalls(f))))
 //@   loop 1: decreases i + 1
